@@ -87,3 +87,65 @@ func VerifC01ExtLaws() {
 	vAssert(vImplies(ab == 0, vSign(ac) == vSign(bc)), "equal versions compare identically against a third")
 	vAssert(sys.Compare(sa, sb) == ab, "System.Compare is compare of the parses")
 }
+
+// VerifC01History: comparison never depends on the history of earlier calls:
+// the same System.Compare call gives the same answer before and after calls in
+// other systems on the same strings (a cache keyed too coarsely shows here).
+func VerifC01History() {
+	sysA, sysB := System(vParam("sysa")), System(vParam("sysb"))
+	a := c01HistString("a", vParam("ta"))
+	b := c01HistString("b", vParam("tb"))
+	vObserveStr("a", a)
+	vObserveStr("b", b)
+	wantB := c01ExpectCompare(sysB, a, b)
+	wantA := c01ExpectCompare(sysA, a, b)
+	first := sysB.Compare(a, b)
+	vAssert(first == wantB, "System.Compare follows its contract (first call)")
+	// the very next call, same strings, another system
+	next := sysA.Compare(a, b)
+	vAssert(next == wantA, "a comparison is not affected by the preceding call in another system")
+	again := sysB.Compare(a, b)
+	vAssert(again == first, "the same comparison gives the same answer after calls in another system")
+	// one operand repeated in the same position, the other new
+	c := c01HistString("c", vParam("tb"))
+	mixed := sysA.Compare(a, c)
+	vAssert(mixed == c01ExpectCompare(sysA, a, c), "a comparison sharing one operand with the preceding call in another system is not affected")
+}
+
+// c01ExpectCompare: the documented contract of System.Compare over fresh parses.
+func c01ExpectCompare(sys System, a, b string) int {
+	va, erra := sys.Parse(a)
+	vb, errb := sys.Parse(b)
+	switch {
+	case erra == nil && errb != nil:
+		return 1
+	case erra != nil && errb == nil:
+		return -1
+	case erra != nil || errb != nil:
+		return 0
+	}
+	vCover(true, "both parse")
+	return compare(va, vb)
+}
+
+var c01HistTemplates = []string{"d.d.d", "d.d.d-dd", "d.d.d-l", "vd.d.d", "d.d", "d.d.d-ld"}
+
+func c01HistString(tag string, tid int) string {
+	t := c01HistTemplates[tid]
+	sym := vBytes(tag, len(t))
+	out := ""
+	for i := 0; i < len(t); i++ {
+		b := sym[i]
+		switch t[i] {
+		case 'd':
+			vAssume(vAnd('0' <= b, b <= '9'))
+			out += string([]byte{b})
+		case 'l':
+			vAssume(vAnd('a' <= b, b <= 'z'))
+			out += string([]byte{b})
+		default:
+			out += t[i : i+1]
+		}
+	}
+	return out
+}
